@@ -243,7 +243,8 @@ def h_single(ctx):
             break
         ci = ctx.choose("cell%d" % m, opts, free=True)
         prev = ci
-        e = ctx.choose("enc%d" % m, encs_menu if m == 0 or ctx.params.get("enc_all") else encs_menu[:1], free=True)
+        first = ctx.params.get("encs_first", encs_menu)
+        e = ctx.choose("enc%d" % m, first if m == 0 else (encs_menu if ctx.params.get("enc_all") else encs_menu[:1]), free=True)
         if e in ("-inf",) and cells[ci][1] not in ("obs", "fcst"):
             e = encs_menu[0]        # minus infinity is only judged for obs / fcst (non-finite = missing there); see ASSUMPTIONS
         marks.append(cells[ci])
@@ -311,7 +312,7 @@ def h_struct(ctx):
     what = ctx.choose("what", ("slice-lead", "slice-loc", "slice-time", "field", "input"), free=True)
     ii = ctx.choose("input", (0, 1), free=True)
     fsel = ctx.choose("field", FIELDS, free=True) if what != "input" else None
-    enc = ctx.choose("enc", (TEXT_TOKENS[:3] if via == "text" else NC_ENCS), free=True)
+    enc = ctx.choose("enc", (TEXT_TOKENS[:3] if via == "text" else [e for e in NC_ENCS if e != "-inf"]), free=True)
     marks = []
     for pos in inputs[0].positions():
         hit = {"slice-lead": pos[1] == 1, "slice-loc": pos[2] == 0, "slice-time": pos[0] == 1, "field": True, "input": True}[what]
@@ -349,8 +350,10 @@ def plan(tier):
     small = ["obs", "fcst", "p1", "e0"]
     p = [("text-1", h_single, {"via": "text", "marks": 1, "fields": FIELDS}),
          ("nc-1", h_single, {"via": "nc", "marks": 1, "fields": FIELDS}),
-         ("text-2", h_single, {"via": "text", "marks": 2, "fields": ["obs", "fcst"] if q else FIELDS, "enc_all": not q}),
-         ("nc-2", h_single, {"via": "nc", "marks": 2, "fields": ["fcst", "e0"] if q else ["obs", "fcst", "pit", "p1", "q0.1", "e0", "e1"]}),
+         ("text-2", h_single, dict({"via": "text", "marks": 2, "fields": ["obs", "fcst"] if q else FIELDS, "enc_all": not q},
+                                   **({"encs_first": ["-999", "NA", "inf", "<absent-row>"]} if q else {}))),
+         ("nc-2", h_single, dict({"via": "nc", "marks": 2, "fields": ["fcst", "e0"] if q else ["obs", "fcst", "pit", "p1", "q0.1", "e0", "e1"]},
+                                 **({"encs_first": ["nan", "masked", "fill", "-inf"]} if q else {}))),
          ("text-struct", h_struct, {"via": "text"}), ("nc-struct", h_struct, {"via": "nc"})]
     return p
 
